@@ -23,6 +23,8 @@ THEOREMS = [
     "VK.randomAssign_spec",
     "VK.C03_random_transfer",
     "VK.C03_step_accounting_both",
+    "VK.kernel_transfer_value",
+    "VK.kernel_transfer_value_used",
 ]
 RULE = ("cases = (a) direct calls of fractional_transfer / random_transfer on ballot lists with duplicates, bullet votes "
         "(exhausting), ballots not led by the winner, ballots listing the winner lower down, 20% with tied lower "
